@@ -78,10 +78,25 @@ Theorem C08_dag_exit_code : forall is_word lower body c ts faults pref w,
   x_exit (build is_word lower body c ts faults pref w) = XDag <-> create_dag is_word lower c ts = DagErr.
 Proof. exact exit_dag_iff. Qed.
 
-(* F3: a cycle closed through 'after' ends with the execution-phase code (false of the
-   property on the unchanged code) *)
-Theorem C08_after_cycle_exit_refuted :
-  wbuild cfg0 f3_tasks (fun _ => NoFault) [] (mkWorld [] []) = mkRes XFailed (mkWorld [] []) [] [].
+(* after the repair of F3 every cyclic graph - also one closed through 'after' - is a graph
+   error: the scheduler's own cycle check can no longer fire after create_dag accepted *)
+Theorem C08_accepted_graph_acyclic : forall is_word lower c ts E desel,
+  create_dag is_word lower c ts = DagOk E desel -> forall v, ~ Reach E v v.
+Proof. exact accepted_graph_acyclic. Qed.
+
+Theorem C08_scheduler_never_refuses : forall is_word lower c ts E desel,
+  create_dag is_word lower c ts = DagOk E desel ->
+  exists s0, from_dag (task_ids ts) E (prio_list ts) = Some s0.
+Proof.
+  intros is_word lower c ts E desel D.
+  destruct (from_dag (task_ids ts) E (prio_list ts)) as [s0|] eqn:F; eauto.
+  exfalso. apply from_dag_none_iff in F. destruct F as [v R].
+  exact (accepted_graph_acyclic is_word lower c ts E desel D v R).
+Qed.
+
+(* regression witness of F3 *)
+Theorem C08_after_cycle_exit_code :
+  wbuild cfg0 f3_tasks (fun _ => NoFault) [] (mkWorld [] []) = mkRes XDag (mkWorld [] []) [] [].
 Proof. exact f3_after_cycle_exit. Qed.
 
 Print Assumptions C08_one_report_each.
@@ -94,4 +109,6 @@ Print Assumptions C08_exit_code_exact.
 Print Assumptions C08_success_spec.
 Print Assumptions C08_fail_iff.
 Print Assumptions C08_dag_exit_code.
-Print Assumptions C08_after_cycle_exit_refuted.
+Print Assumptions C08_accepted_graph_acyclic.
+Print Assumptions C08_scheduler_never_refuses.
+Print Assumptions C08_after_cycle_exit_code.
